@@ -63,7 +63,11 @@ def drive_free(case):
 
 
 def project(rec):
-    return {k: rec[k] for k in ('id', 'doc', 'srclen', 'outcome', 'parts')}
+    import re
+    d = {k: rec[k] for k in ('id', 'doc', 'srclen', 'outcome', 'parts')}
+    # name of the control sequence each snippet starts with (for the exclusion of self-recursive definitions)
+    d['cs'] = [(re.match(r'\\[A-Za-z@]+', s_) or [''])[0] if isinstance(s_, str) else '' for s_ in rec['doc']]
+    return d
 
 
 def free_docs(c, syms, n):
